@@ -682,3 +682,62 @@ def _interpret_sanitizer(func, param, sample):
             return 'unknown'
         return None
     return block(func.node.body) or 'accept'
+
+
+# ---------------------------------------------------------- START-SCOPE ---
+
+PROBES = {'which', 'exists', 'is_file', 'isfile', 'access', 'stat', 'lstat',
+          'is_dir', 'isdir', 'resolve', 'realpath', 'samefile'}
+OS_ERRORS = {'OSError', 'IOError', 'FileNotFoundError', 'PermissionError',
+             'NotADirectoryError', 'EnvironmentError', 'IsADirectoryError'}
+
+
+def check_start_scope(ctx):
+    """"A command that cannot be started makes the task fail rather than the
+    run": whether the executable exists is found out when the task RUNS
+    (subprocess raises inside run(), the worker turns it into FAILED).  The
+    code that only DESCRIBES tasks (RunTask / RunTaskFactory constructors
+    and class methods, make, copy - everything but the nested runner /
+    closure functions executed inside do()) must not probe the file system
+    for the executable and raise: the exception would leave the job file,
+    before any task is scheduled, and it refuses executables that an earlier
+    task of the same run produces."""
+    from . import verdict as V
+    program = ctx.program
+    mod = program.module('valjean.cosette.run')
+    program.consulted.add(mod.relpath)
+    n = 0
+    bad = 0
+    for func in mod.functions.values():
+        if func.parent is not None or func.cls is None or func.cls.name \
+                not in ('RunTask', 'RunTaskFactory'):
+            continue
+        n += 1
+        for node in walk_local(func.node):
+            if not isinstance(node, ast.Raise) or node.exc is None:
+                continue
+            exc = node.exc.func if isinstance(node.exc, ast.Call) else \
+                node.exc
+            ename = (dotted(exc) or '').split('.')[-1]
+            conds = V.path_condition(func.node, node)
+            probing = [t for t, _ in conds if any(
+                isinstance(c, ast.Call) and call_name(c) in PROBES
+                for c in ast.walk(t))]
+            if ename in OS_ERRORS or probing:
+                bad += 1
+                ctx.violated(
+                    'START-SCOPE', func,
+                    f'{func.name}: raise {ename} while the job is being '
+                    f'described' + (f' (under `{txt(probing[0])[:40]}`)'
+                                    if probing else ''),
+                    at=func.where(node),
+                    detail='a missing executable must fail the task that '
+                           'runs it (FAILED, dependants SKIPPED, the rest of '
+                           'the run goes on), not abort the description of '
+                           'the job')
+    ctx.floor('START-SCOPE', n, 6, 'description-time methods of RunTask / '
+                                   'RunTaskFactory')
+    if not bad:
+        ctx.holds('START-SCOPE', 'valjean.cosette.run',
+                  f'{n} description-time methods: no file-system probe '
+                  f'followed by a raise, no OSError raised', nontrivial=True)
